@@ -30,6 +30,11 @@ Lost(a, b) ==
        ELSE LET j == CHOOSE x \in hits : \A y \in hits : x <= y IN Lost(Tail(a), SubSeq(b, j + 1, Len(b)))
 Range(s) == {s[i] : i \in 1..Len(s)}
 
+(* a comment with its empty lines removed (witness of BlockCommentInnerBlankLineDropped) *)
+RECURSIVE NoEmptyLines(_)
+NoEmptyLines(c) == IF Len(c) < 2 THEN c
+                   ELSE IF SubSeq(c, 1, 2) = "\n\n" THEN NoEmptyLines(SubSeq(c, 2, Len(c)))
+                   ELSE SubSeq(c, 1, 1) \o NoEmptyLines(SubSeq(c, 2, Len(c)))
 (* ---- C12, tier 1 ---- *)
 (* a witness of a recorded defect is consulted only while that defect is pinned (open): once it is repaired, an          *)
 (* observation of its old shape has to find another explanation or is a violation                                       *)
@@ -52,6 +57,8 @@ C12Rows(r) ==
                 ELSE IF SameLineWitness(r) THEN <<V(r.id, "deviation", "SameLineStatementsGlued", meaning)>>
                 ELSE <<V(r.id, "violation", "", meaning)>>
        rowsC == IF lost = <<>> THEN <<>>
+                ELSE IF \A c \in Range(lost) : NoEmptyLines(c) # c /\ NoEmptyLines(c) \in Range(r.comments_fmt)
+                     THEN <<V(r.id, "deviation", "BlockCommentInnerBlankLineDropped", "empty line inside a block comment deleted: " \o lost[1])>>
                 ELSE IF "ImportArgGapDropped" \in Devs /\ Range(lost) \subseteq Range(r.dropimp)
                      THEN <<V(r.id, "deviation", "ImportArgGapDropped", "comment in front of a named import argument deleted: " \o lost[1])>>
                 ELSE IF "OpenBraceGapDropped" \in Devs /\ Range(lost) \subseteq Range(r.dropgap) THEN <<V(r.id, "deviation", "OpenBraceGapDropped", "comment in front of a block's opening brace deleted: " \o lost[1])>>
@@ -68,7 +75,7 @@ C12Rows(r) ==
 (* blanks; blank lines may come and go.  Any change on another line, or of a non-blank character, is a violation.     *)
 KeepIdx(ls, drop(_)) == SelectSeq([i \in 1..Len(ls) |-> i], LAMBDA i : ~drop(i))
 Keep(ls, drop(_)) == [k \in DOMAIN KeepIdx(ls, drop) |-> ls[KeepIdx(ls, drop)[k]]]
-BlankAfterCont(ls, i) == ls[i].s = "" /\ ~ls[i].cont /\ i > 1 /\ ls[i - 1].cont
+BlankAfterCont(ls, i) == ls[i].s = "" /\ (ls[i].cont \/ (i > 1 /\ ls[i - 1].cont))    \* empty line inside, or directly after, a block comment
 BlankBeforeElse(ls, i) ==      \* blank line with only comment lines between it and a following `else` or bare `{` line
   ls[i].s = "" /\ \E j \in (i + 1)..Len(ls) : (ls[j].el \/ ls[j].s = "{") /\ \A k \in (i + 1)..(j - 1) : (ls[k].cs \/ ls[k].cont \/ ls[k].s = "")
 BlankAfterLabelComment(ls, i) == ls[i].s = "" /\ i > 1 /\ (ls[i - 1].lc \/ ls[i - 1].lo)
